@@ -239,6 +239,26 @@ theorem same_pk_distinct_across_shards (c : Cfg) (st : St) (pk s s' : Nat) (v : 
     · simp only [hd, Bool.false_eq_true, if_false]
       refine ⟨?_, ?_, ?_, ?_⟩ <;> first | trivial | rfl | simp [hne]
 
+/-- **merge_routes_by_token**: merging a detached, modified object back (its key carries the
+    token of the shard it was loaded from) touches the instance of that shard only — the
+    instances, and after the flush the rows, of the same primary key in other shards are as
+    they were. -/
+theorem merge_routes_by_token (c : Cfg) (st : St) (pk s s' : Nat) (v : Int) (hne : s' ≠ s) :
+    (step c st (.mergeDet pk s v)).1.objs pk s' = st.objs pk s' ∧
+    (step c st (.mergeDet pk s v)).1.shards = st.shards ∧
+    (step c st (.mergeDet pk s v)).1.new = st.new := by
+  simp only [step]
+  cases ho : st.objs pk s with
+  | none => (refine ⟨?_, ?_, ?_⟩ <;> first | trivial | rfl)
+  | some o =>
+    cases hr : st.shards s pk with
+    | none => (refine ⟨?_, ?_, ?_⟩ <;> first | trivial | rfl)
+    | some r =>
+      by_cases hd : o.del = true
+      · simp only [hd, if_true]; (refine ⟨?_, ?_, ?_⟩ <;> first | trivial | rfl)
+      · simp only [hd, Bool.false_eq_true, if_false]
+        refine ⟨?_, ?_, ?_⟩ <;> first | trivial | rfl | simp [hne]
+
 /-- …and therefore the other shard's row after the flush is unaffected -/
 theorem other_shard_row_unaffected (c : Cfg) (st st1 st2 : St) (pk s s' : Nat) (v : Int) (hne : s' ≠ s)
     (hnd : (st.new.map (·.1)).Nodup) (hno : ∀ e ∈ st.new, e.1 ≠ pk)
